@@ -13,9 +13,10 @@ mv rpc/zz_demo_test.go /tmp/mutdemo/held.$$
 if go test -vet=off -count=1 ./... >/tmp/mutdemo/suite.$$ 2>&1; then echo "suite with patch: PASS"; else echo "suite with patch: FAIL"; tail -5 /tmp/mutdemo/suite.$$; fi
 mv /tmp/mutdemo/held.$$ rpc/zz_demo_test.go
 if go test -vet=off -count=1 -run 'TestDemo$' ./rpc/ >/tmp/mutdemo/d1.$$ 2>&1; then echo "demo with patch: PASS (unexpected)"; else echo "demo with patch: FAIL (expected)"; fi
-git stash -q -- $(git diff --name-only | grep -v zz_demo) 2>/dev/null
+# (no git stash: the stash is shared between worktrees)
+git apply -R _out/patch.diff || { echo "cannot reverse the patch"; exit 3; }
 if go test -vet=off -count=1 -run 'TestDemo$' ./rpc/ >/tmp/mutdemo/d2.$$ 2>&1; then echo "demo without patch: PASS (expected)"; else echo "demo without patch: FAIL (unexpected)"; tail -5 /tmp/mutdemo/d2.$$; fi
-git stash pop -q
+git apply _out/patch.diff
 echo "== apply to /repo and run checks"
 cd /repo && git apply "$WT/_out/patch.diff" || { echo "patch does not apply to /repo"; exit 3; }
 for P in "$@"; do
